@@ -395,6 +395,27 @@ def r6(ctx):
     ctx.emit('C12-R6', bool(rs) and not skipped, BINCOUNTS, own[0], f'{len(rs)} paths from the ownership test to the end of the iteration (KeyError of get_tag modelled): every one increments a (bin, sample) counter'
              if rs and not skipped else f'a path after the ownership test ends the iteration without counting the read: {skipped[0]["path"][-300:] if skipped else None}',
              key='owned-read-always-counted', what='count_fragments_binned: an owned read is skipped (e.g. because an optional tag is missing)')
+    # whether a read is counted does not depend on which other reads the job has seen: no skip is decided by a container that the loop itself fills (a job-local
+    # "seen" set makes the answer depend on where the job boundaries fall)
+    filled = {}
+    for c_ in walk_no_nested(loop):
+        if isinstance(c_, ast.Call) and isinstance(c_.func, ast.Attribute) and c_.func.attr in ('add', 'append', 'update', 'setdefault') and isinstance(c_.func.value, ast.Name):
+            filled.setdefault(c_.func.value.id, c_)
+        if isinstance(c_, ast.Assign):
+            for t_ in c_.targets:
+                if isinstance(t_, ast.Subscript) and isinstance(t_.value, ast.Name):
+                    filled.setdefault(t_.value.id, c_)
+    counters = {'counts'} | aliases
+    carried = []
+    for i_ in [x for x in walk_no_nested(loop) if isinstance(x, ast.If)]:
+        used = (names_in(i_.test) & set(filled)) - counters
+        exits = any(isinstance(x, (ast.Continue, ast.Break)) for b_ in i_.body + i_.orelse for x in walk_no_nested(b_))
+        if used and exits:
+            carried.append((i_, sorted(used)))
+    ctx.emit('C12-R6', not carried, BINCOUNTS, carried[0][0] if carried else loop, 'no read is skipped on the strength of what the job has seen before it' if not carried else
+             f'`{src(carried[0][0].test)[:60]}` skips a read depending on `{carried[0][1][0]}`, which the loop fills from the reads it has already seen: two records that share that key are counted once '
+             'when one job fetches both and twice when a job boundary separates them', key='no-job-local-memory', witness={'records sharing the key': 2, 'one job': 'counted once', 'two jobs': 'counted twice'} if carried else None,
+             what='count_fragments_binned: a job-local "seen" container decides whether a read is counted')
     o = ctx.fn(BINCOUNTS, 'obtain_counts')
     whole = [c for c in walk_no_nested(o) if isinstance(c, ast.Call) and isinstance(c.func, ast.Attribute) and c.func.attr == 'update' and src(c.func.value) == 'counts']
     bin_aliases = {s_.targets[0].id for s_ in walk_no_nested(o) if isinstance(s_, ast.Assign) and len(s_.targets) == 1 and isinstance(s_.targets[0], ast.Name)
